@@ -60,6 +60,7 @@ type Op struct {
 	Power int64  `json:"power,omitempty"` // slash
 	Frac  string `json:"frac,omitempty"`  // slash fraction, LegacyDec raw integer
 	Must  bool   `json:"must,omitempty"`  // exit phase: has to succeed
+	Setup bool   `json:"setup,omitempty"` // set-up phase (validator operators act)
 }
 
 type History struct {
@@ -156,9 +157,10 @@ type World struct {
 
 const opBase = 100 // ids of the validator operators: 100+i
 
+// newWorld builds the chain and stops right after InitChain: the history starts at genesis
+// (model.M_Shares.gen_state), the set-up operations are ordinary recorded steps.
 func newWorld(seed int64, nVals, nAcc int) *World {
 	c := lib.NewChain(seed, nVals, nil)
-	lib.Must(c.NextBlock())
 	w := &World{c: c, accID: map[string]int{}, valID: map[string]int{}}
 	w.smsg = stakingkeeper.NewMsgServerImpl(c.App.StakingKeeper.Keeper)
 	w.dmsg = distrkeeper.NewMsgServerImpl(c.App.DistrKeeper)
@@ -173,12 +175,18 @@ func newWorld(seed int64, nVals, nAcc int) *World {
 		w.vals = append(w.vals, k.Val())
 		w.valID[k.Val().String()] = i
 		w.accID[k.Acc().String()] = opBase + i
-		// keep the validator's consensus power comfortably above zero whatever the participants do
-		_, err := w.smsg.Delegate(c.Ctx, &stakingtypes.MsgDelegate{DelegatorAddress: k.Acc().String(), ValidatorAddress: k.Val().String(), Amount: lib.FX(5_000)})
-		lib.Must(err)
 	}
-	lib.Must(c.NextBlock())
 	return w
+}
+
+// setupOps: a first block, then every operator adds 5000 FX to its self-delegation (keeps the validator's
+// consensus power comfortably above zero whatever the participants do), then another block.
+func setupOps(nVals int) []Op {
+	ops := []Op{{K: "block", X: "0"}}
+	for i := 0; i < nVals; i++ {
+		ops = append(ops, Op{K: "delegate", V: i, A: opBase + i, X: lib.FX(5_000).Amount.String(), Via: "msg", Setup: true})
+	}
+	return append(ops, Op{K: "block", X: "1000000000000000000"})
 }
 
 func (w *World) snap(ctx sdk.Context) Snap {
@@ -423,7 +431,9 @@ func (w *World) evm(from int, method string, args ...interface{}) error {
 
 func (w *World) validOp(o Op) bool {
 	nv := len(w.vals)
-	okAcc := func(i int) bool { return i >= 0 && i < len(w.accs) }
+	okAcc := func(i int) bool {
+		return i >= 0 && i < len(w.accs) || o.Setup && o.K == "delegate" && i >= opBase && i < opBase+len(w.vals)
+	}
 	if o.K == "block" || o.K == "mature" {
 		return true
 	}
@@ -615,6 +625,11 @@ func (w *World) monitor(o Op, before, after Snap, balBefore map[int]*big.Int, pe
 		if bv.Tokens.Cmp(av.Tokens) != 0 || bv.Shares.Cmp(av.Shares) != 0 {
 			add("transfer-validator", "transfer changed the validator: tokens %s -> %s, shares %s -> %s", bv.Tokens, av.Tokens, bv.Shares, av.Shares)
 		}
+		for _, rd := range before.Reds {
+			if rd[0] == from && rd[2] == o.V {
+				add("transfer-with-incoming-redelegation", "transfer accepted while sender %d has an incoming redelegation on validator %d", from, o.V)
+			}
+		}
 		if from == to {
 			if bv.del(from).Cmp(av.del(from)) != 0 {
 				add("self-transfer", "transfer of %s shares to oneself changed the delegation %s -> %s", o.X, bv.del(from), av.del(from))
@@ -644,6 +659,38 @@ func (w *World) monitor(o Op, before, after Snap, balBefore map[int]*big.Int, pe
 			}
 			if d := new(big.Int).Sub(ab, aa); d.Cmp(bigOf(o.X)) != 0 {
 				add("allowance-delta", "allowance went %s -> %s for a transferFrom of %s", ab, aa, o.X)
+			}
+		}
+		// reward entitlement afterwards: each party's starting info carries the stake its shares are
+		// worth now (SDK rule: TokensFromSharesTruncated), starts in the period that just ended
+		if from != to {
+			for _, id := range []int{from, to} {
+				sh := av.del(id)
+				var rec *startRec
+				for i := range av.Start {
+					if av.Start[i].ID == id {
+						rec = &av.Start[i]
+					}
+				}
+				if sh.Sign() == 0 {
+					if rec != nil {
+						add("transfer-start-left", "account %d has no delegation after the transfer but still a starting info", id)
+					}
+					continue
+				}
+				if rec == nil {
+					add("transfer-start-missing", "account %d has a delegation after the transfer but no starting info", id)
+					continue
+				}
+				want := new(big.Int).Mul(sh, av.Tokens) // Dec(shares)*tokens / Dec(valShares), truncated to 18 decimals
+				want.Mul(want, one18)
+				want.Quo(want, av.Shares)
+				if rec.Stake.Cmp(want) != 0 {
+					add("transfer-stake", "account %d: starting info stake %s, its shares are worth %s", id, rec.Stake, want)
+				}
+				if rec.Prev+1 != av.Period && rec.Prev+2 != av.Period {
+					add("transfer-start-period", "account %d: starting info period %d, current period %d", id, rec.Prev, av.Period)
+				}
 			}
 		}
 		// both parties are paid exactly what had accrued, nothing is pending afterwards
@@ -941,7 +988,8 @@ func (res *result) coqCase(full bool) string {
 	for _, v := range res.final.Vals {
 		fin = append(fin, v.coq())
 	}
-	return fmt.Sprintf("mk_shares_case (mk_state %s %d) %s\n    [%s]\n    %s", lib.List(vals), res.init.Height, res.init.digest(), strings.Join(steps, ";\n     "), lib.List(fin))
+	_ = vals
+	return fmt.Sprintf("mk_shares_case %d %s\n    [%s]\n    %s", len(res.init.Vals), res.init.digest(), strings.Join(steps, ";\n     "), lib.List(fin))
 }
 
 // runHistory executes a history. With r != nil the operations are generated on the fly (n of them,
@@ -957,11 +1005,14 @@ func runHistory(h History, r *lib.Rand, n int) *result {
 	if replay {
 		queue = append(queue, h.Ops...)
 		res.h.Ops = nil
+	} else {
+		queue = setupOps(h.NVals)
+		n += len(queue)
 	}
 	exitQueued := false
 	for step := 0; ; step++ {
 		var o Op
-		if replay {
+		if replay || (len(queue) > 0 && !exitQueued) {
 			if len(queue) == 0 {
 				break
 			}
@@ -1136,6 +1187,7 @@ func main() {
 
 	// 0. the model's refutation witness (P_Shares.self_transfer_witness) replayed on the real app
 	wit := History{Seed: seed, NVals: 2, NAcc: 3, Stream: "self", Ops: []Op{
+		{K: "block", X: "0"},
 		{K: "delegate", V: 0, A: 0, X: "100000000000000000000", Via: "evm"},
 		{K: "block", X: "1000000000000000000"},
 		{K: "transfer", V: 0, A: 0, B: 0, X: "40"},
@@ -1144,7 +1196,7 @@ func main() {
 	report(wres)
 	if wres.selfSeen && len(wres.fails) > 0 {
 		last := wres.steps[len(wres.steps)-1].snap.Vals[0]
-		rep.Notes = append(rep.Notes, fmt.Sprintf("model witness replayed on the real precompile: delegate 100, transferShares(to = self, 40 shares) -> delegation 100e18 + %s shares, validator shares unchanged at %s (finding C11-1)",
+		rep.Notes = append(rep.Notes, fmt.Sprintf("model witness replayed on the real precompile: delegate 100 FX (1e20 shares), transferShares(to = self, 40 shares) -> delegation 1e20 + %s shares, validator shares still %s (finding C11-1)",
 			new(big.Int).Sub(new(big.Int).Quo(last.del(0), one18), new(big.Int).Mul(big.NewInt(100), one18)), new(big.Int).Quo(last.Shares, one18)))
 	} else {
 		rep.Notes = append(rep.Notes, "model witness for the self-transfer defect did NOT reproduce on the real precompile")
